@@ -47,6 +47,11 @@ const (
 	// to receive ACKS from the peer before resending the queue.
 	gbnTimeout = 1000 * time.Millisecond
 
+	// sendStreamLinger is how long a gRPC send stream to the hashmail
+	// server is kept after the gbn connection that used it has ended, so
+	// that the last packet of that connection (its FIN) still gets out.
+	sendStreamLinger = 1000 * time.Millisecond
+
 	// gbnResendMultiplier is the multiplier that we want the gbn
 	// connection to use when dynamically setting the resend timeout.
 	gbnResendMultiplier = 5
@@ -547,6 +552,35 @@ func (c *ClientConn) Close() error {
 }
 
 var _ ProxyConn = (*ClientConn)(nil)
+
+// lingeringStreamContext returns the context for a gRPC send stream that is
+// opened on behalf of the gbn connection owning ctx. The gbn connection
+// cancels ctx right after handing over its last packet, the FIN that tells
+// the peer that the connection is being closed. A gRPC client stream only
+// queues what it is given, and cancelling its context aborts the stream
+// together with what is still queued, so a stream opened under ctx itself
+// would hardly ever deliver that FIN. The returned context therefore ends
+// only sendStreamLinger after ctx, or when the returned function is called.
+func lingeringStreamContext(ctx context.Context) (context.Context, func()) {
+	streamCtx, cancel := context.WithCancel(context.WithoutCancel(ctx))
+
+	go func() {
+		select {
+		case <-ctx.Done():
+		case <-streamCtx.Done():
+			return
+		}
+
+		select {
+		case <-time.After(sendStreamLinger):
+		case <-streamCtx.Done():
+		}
+
+		cancel()
+	}()
+
+	return streamCtx, cancel
+}
 
 // lockWithContext acquires the mutex, giving up with the context's error if
 // the context ends first.
